@@ -449,14 +449,42 @@ Proof.
                semv := semv g2; joined := joined g2; completed := completed g2; pol := pol g2;
                mode := mode g2; pc := pc g2; entered := entered g2; granted := granted g2; wake := wake g2;
                must_cancel := must_cancel g2; jexc := jexc g2; unfinished := unfinished g2;
-               queue := queue g2; log_done := log_done g2 ++ [t]; consumed := consumed g2 |})).
+               queue := queue g2; log_done := log_done g2 ++ [t]; consumed := consumed g2;
+               app_consumed := app_consumed g2 |})).
   { destruct (m_daemon m); [exact Hgood2|]. gupd Hgood2. }
   unfold is_fin in Efin. destruct (m_status m); try discriminate; exact Hres.
 Qed.
 
+(* ---------- the application's next_done() before the join ---------- *)
+Definition app_take (g : tg) (t : N) (rest : list N) (sv : nat) : tg :=
+  {| members := members g; pending := pending g; daemons := daemons g; doneq := rest; semv := sv;
+     joined := joined g; completed := completed g; pol := pol g; mode := mode g; pc := pc g;
+     entered := entered g; granted := granted g; wake := wake g; must_cancel := must_cancel g;
+     jexc := jexc g; unfinished := unfinished g; queue := queue g; log_done := log_done g;
+     consumed := consumed g; app_consumed := app_consumed g ++ [t] |}.
+Lemma app_next_cases g :
+  app_next g = g \/
+  exists t rest sv, pc g = JNot /\ consumed g = [] /\ doneq g = t :: rest /\ semv g = S sv /\ app_next g = app_take g t rest sv.
+Proof.
+  unfold app_next. destruct (pc g) eqn:Ep; auto. destruct (consumed g) eqn:Ec; auto.
+  destruct (doneq g) as [|t rest] eqn:Ed; auto. destruct (semv g) as [|sv] eqn:Es; auto.
+  right. exists t, rest, sv. repeat split; auto. unfold app_take. now rewrite Ep, Ec.
+Qed.
+
+Lemma app_next_frame g :
+  members (app_next g) = members g /\ pending (app_next g) = pending g /\ daemons (app_next g) = daemons g /\
+  joined (app_next g) = joined g /\ pc (app_next g) = pc g /\ queue (app_next g) = queue g /\
+  completed (app_next g) = completed g /\ consumed (app_next g) = consumed g /\ pol (app_next g) = pol g /\
+  log_done (app_next g) = log_done g /\ wake (app_next g) = wake g /\ granted (app_next g) = granted g /\
+  entered (app_next g) = entered g /\ must_cancel (app_next g) = must_cancel g /\ jexc (app_next g) = jexc g /\
+  unfinished (app_next g) = unfinished g /\ mode (app_next g) = mode g.
+Proof.
+  destruct (app_next_cases g) as [->|(t & rest & sv & _ & _ & _ & _ & ->)]; cbn; repeat split; reflexivity.
+Qed.
+
 Lemma step_good g l : Good g -> Good (step g l).
 Proof.
-  intros Hg. destruct l as [t d al|t o|t| | |h order]; cbn [step].
+  intros Hg. destruct l as [t d al|t o|t| | |h order|]; cbn [step].
   - apply add_task_good; exact Hg.
   - apply finish_member_good; exact Hg.
   - eapply frame_good; [apply cancel_member_frame|exact Hg].
@@ -476,6 +504,7 @@ Proof.
     assert (H2 : Good g1) by (gupd H1).
     destruct (removeN t (unfinished (upd_queue g rest))); [|exact H2].
     destruct (pc g1); try exact H2; destruct (wake g1); try exact H2; gupd H2.
+  - destruct (app_next_cases g) as [->|(t & rest & sv & _ & _ & _ & _ & ->)]; [exact Hg|]. unfold app_take. gupd Hg.
 Qed.
 
 Theorem reachable_good p m ls : Good (run p m ls).
@@ -602,7 +631,7 @@ Qed.
 Lemma after_join_step g l : joined g = true ->
   joined (step g l) = true /\ keys (step g l) = keys g.
 Proof.
-  intros Hj. destruct l as [t d al|t o|t| | |h order]; cbn [step].
+  intros Hj. destruct l as [t d al|t o|t| | |h order|]; cbn [step].
   - unfold add_task. now rewrite probe_refused, Hj.
   - unfold finish_member, keys. destruct (get t (members g)) eqn:E; auto.
     destruct (m_status m); auto; destruct (m_daemon m); cbn; split; auto; erewrite set_keys; eauto.
@@ -616,6 +645,7 @@ Proof.
     + apply (joiner_step_pres (fun g' => joined g' = true /\ keys g' = keys g)); auto.
       * intros g0 p en gr wk mc je unf jd cm cs [H1 H2] [->| ->] _; auto.
       * intros g0 ord [H1 H2]. destruct (cancel_tasks_keys g0 ord) as [-> ->]. auto.
+  - destruct (app_next_frame g) as (E1 & _ & _ & E4 & _). unfold keys. rewrite E1, E4. auto.
 Qed.
 
 (* nothing can be added after the join: the set of members never changes again *)
@@ -766,7 +796,7 @@ Qed.
 
 Theorem cancel_pending_step g l : CancelPending g -> CancelPending (step g l) \/ EndedCancelled (step g l).
 Proof.
-  intros Hp. destruct l as [t d al|t o|t| | |h order]; cbn [step].
+  intros Hp. destruct l as [t d al|t o|t| | |h order|]; cbn [step].
   - left. unfold add_task. destruct (add_refused_after_join && joined g); [exact Hp|].
     destruct (get t (members g)); [exact Hp|].
     destruct (match al with Some o => Fin o | None => Run end); cbn [fst];
@@ -811,11 +841,13 @@ Proof.
            now rewrite Hj.
         -- left. destruct (cancel_tasks_jfields g0 (x0 :: xs)) as (E1 & E2 & E3).
            split; [reflexivity|]. right. right. cbn [pc jexc upd_joiner]. split; [|reflexivity]. rewrite E1. exact Hj.
+  - left. destruct (app_next_frame g) as (_ & _ & _ & _ & E5 & _ & _ & _ & _ & _ & E11 & _ & _ & E14 & E15 & _).
+    apply (pending_kept g); auto. now rewrite E11.
 Qed.
 
 Lemma ended_cancelled_stays g l : EndedCancelled g -> EndedCancelled (step g l).
 Proof.
-  intros (e & j & Ep). exists e, j. destruct l as [t d al|t o|t| | |h order]; cbn [step].
+  intros (e & j & Ep). exists e, j. destruct l as [t d al|t o|t| | |h order|]; cbn [step].
   - unfold add_task. destruct (add_refused_after_join && joined g); [exact Ep|].
     destruct (get t (members g)); [exact Ep|].
     destruct (match al with Some o => Fin o | None => Run end); cbn [fst]; try (destruct d; exact Ep).
@@ -829,6 +861,7 @@ Proof.
     + cbn [run_cb]. destruct (on_done_jfields (upd_queue g rest) t) as (_ & _ & -> & _). exact Ep.
     + destruct (pop_jfields (upd_queue g rest) t) as (_ & _ & -> & _). exact Ep.
     + unfold joiner_step. cbv zeta. cbn [pc upd_joiner upd_queue]. rewrite Ep. cbn. rewrite ?Ep. reflexivity.
+  - destruct (app_next_frame g) as (_ & _ & _ & _ & -> & _). exact Ep.
 Qed.
 
 (* once task.cancel() has been called on a joining task that had not ended, it can only end cancelled *)
